@@ -102,6 +102,9 @@ fn interpret(resp: Result<Resp, String>) -> Exec {
         Ok(Resp::Case(rep)) => match &rep.failure {
             None => Exec::Pass(rep),
             Some(f) => {
+                if f.assertion.starts_with("infra/") {
+                    return Exec::Infra(format!("{}: {}", f.assertion, f.message));
+                }
                 if f.assertion == "harness-panic" {
                     return Exec::Infra(format!("harness panic: {} [{}]", f.message, rep.rendering.clone().unwrap_or_default()));
                 }
@@ -472,7 +475,7 @@ fn run_space(id: &str, tier: Tier, space: usize, name: &str, size: u64, cpu_ms: 
                         drop(g);
                         if let Some((idx, rep)) = fail {
                             let f = rep.failure.clone().unwrap();
-                            if f.assertion == "harness-panic" {
+                            if f.assertion == "harness-panic" || f.assertion.starts_with("infra/") {
                                 shared.lock().unwrap().2.get_or_insert(format!("harness panic: {} [{}]", f.message, rep.rendering.clone().unwrap_or_default()));
                                 stop_at.fetch_min(0, Ordering::SeqCst);
                                 break;
